@@ -25,10 +25,20 @@ import (
 
 func applyList(l dom.ListBuilder, idxes []int) dom.ContainerBuilder {
 	if len(idxes) == 1 {
+		if l.Size() > idxes[0] {
+			if c, ok := l.Items()[idxes[0]].(dom.ContainerBuilder); ok {
+				return c
+			}
+		}
 		c := dom.Builder().Container()
 		l.Set(uint(idxes[0]), c)
 		return c
 	} else {
+		if l.Size() > idxes[0] {
+			if sub, ok := l.Items()[idxes[0]].(dom.ListBuilder); ok {
+				return applyList(sub, idxes[1:])
+			}
+		}
 		sub := dom.ListNode()
 		l.Set(uint(idxes[0]), sub)
 		return applyList(sub, idxes[1:])
